@@ -61,6 +61,7 @@ func vSessSX(s *sessionsapi.SessionState) vsx {
 }
 
 func driveC08(t *testing.T, out *vEmitter) {
+	defer vC08ProviderFamilies(t, out)
 	// ---- 1. the e-mail validator ----
 	domainSets := [][]string{
 		{"example.com"}, {".example.com"}, {"*.example.com"}, {"*"}, {"Example.COM", ".Sub.Example.org"},
@@ -503,6 +504,82 @@ func vC08FileReload(t *testing.T, out *vEmitter) {
 						map[string]interface{}{"email": em, "file_version": st.label, "status": res.Status})
 				}
 			}
+		}
+	}
+}
+
+// vC08ProviderFamilies: the allowed-groups rule under every provider type of the OIDC family (each has its own
+// constructor, some add provider-specific entries - Keycloak roles, GitLab projects - to the same rule set): a stored
+// session outside the configured groups is refused on every endpoint, one inside is served.
+func vC08ProviderFamilies(t *testing.T, out *vEmitter) {
+	type fam struct {
+		name string
+		mod  func(pr *options.Provider)
+	}
+	fams := []fam{
+		{"oidc", func(pr *options.Provider) {}},
+		{"keycloak-oidc", func(pr *options.Provider) { pr.Type = options.KeycloakOIDCProvider }},
+		{"keycloak-oidc+roles", func(pr *options.Provider) {
+			pr.Type = options.KeycloakOIDCProvider
+			pr.KeycloakConfig.Roles = []string{"editor"}
+		}},
+		{"adfs", func(pr *options.Provider) { pr.Type = options.ADFSProvider }},
+		{"gitlab", func(pr *options.Provider) { pr.Type = options.GitLabProvider }},
+		{"gitlab+projects", func(pr *options.Provider) {
+			pr.Type = options.GitLabProvider
+			pr.GitLabConfig.Projects = []string{"grp/proj=20"}
+		}},
+		{"entra-id", func(pr *options.Provider) { pr.Type = options.MicrosoftEntraIDProvider }},
+		// providers with a group option of their own next to the generic one (F24)
+		{"gitlab+gitlab-group", func(pr *options.Provider) {
+			pr.Type = options.GitLabProvider
+			pr.GitLabConfig.Group = []string{"ops"}
+		}},
+		{"keycloak", func(pr *options.Provider) { pr.Type = options.KeycloakProvider }},
+		{"keycloak+keycloak-group", func(pr *options.Provider) {
+			pr.Type = options.KeycloakProvider
+			pr.KeycloakConfig.Groups = []string{"ops"}
+		}},
+	}
+	for _, f := range fams {
+		f := f
+		e := vTryNewEnv(t, vEnvCfg{oidc: true, mod: func(o *options.Options) {
+			o.Providers[0].OIDCConfig.InsecureSkipNonce = true
+			o.Providers[0].AllowedGroups = []string{"admins", "ops"}
+			f.mod(&o.Providers[0])
+		}})
+		if e == nil {
+			out.Stat("c08_family_config_rejected", 1)
+			continue
+		}
+		served := 0
+		for _, tc := range []struct {
+			groups []string
+			want   bool
+		}{
+			{[]string{"admins"}, true}, {[]string{"users", "ops"}, true}, {[]string{"users"}, false}, {nil, false}, {[]string{"admin"}, false},
+			{[]string{"role:editor"}, strings.HasSuffix(f.name, "+roles")}, {[]string{"project:grp/proj"}, strings.HasSuffix(f.name, "+projects")},
+		} {
+			for _, target := range []string{"/page", "/oauth2/auth", "/oauth2/userinfo"} {
+				b := e.newBrowser("https://app.example.com")
+				ss := b.seedSession("user@example.com", time.Minute, 20)
+				ss.Groups = tc.groups
+				vReseed(b, ss)
+				res := b.get(target)
+				ok := res.Hit() || res.Status == 202 || (res.Status == 200 && strings.Contains(res.Body, "\"email\""))
+				out.Obs("provider-family-groups", true, vL(vS(f.name), vStrs(tc.groups), vS(target), vI(int64(res.Status)), vBool(ok)))
+				out.Stat("c08_family_requests", 1)
+				if ok {
+					served++
+				}
+				if ok != tc.want {
+					out.Violation("authz/request-enforcement", "a session whose groups fail (pass) the configured allowed groups was served (refused)",
+						map[string]interface{}{"provider": f.name, "allowed_groups": []string{"admins", "ops"}, "session_groups": tc.groups, "target": target, "status": res.Status, "served": ok})
+				}
+			}
+		}
+		if served == 0 {
+			out.Violation("control/no-session-served", "no session was served under this provider family: the sweep checks nothing", map[string]interface{}{"provider": f.name})
 		}
 	}
 }
